@@ -182,6 +182,7 @@ def pluralStep (a : Option Cls) : Res Unit :=
 /-- babel: `format_currency` / `format_decimal` of `_parse_decimal(left)` -/
 def babelDecimal : Cls → Res Unit
   | int_huge | int_giant | str_hugeint | str_exp => raise .decimal_InvalidOperation
+  | int_big => [.ok (), .error .decimal_InvalidOperation]      -- more than 28 digits (from 2**94 on)
   | _ => pure ()
 
 /-- babel `datetime`: `_parse_datetime(left)` (a number, or `none` for a parsed date) then `format_datetime` -/
@@ -438,12 +439,15 @@ def st_unit (l : Cls) : Steps :=
   { s1 := fun a => match a with
   | none => pure ()
   | some u =>
-    if u == str_empty || u == str_key then
-      (match l with
-       | int_huge | int_giant | str_hugeint | str_exp => raise .decimal_InvalidOperation
-       | float_inf | float_ninf | str_inf => raise .OverflowError
-       | float_nan | str_nan => raise .ValueError
-       | _ => pure ())
+    -- babel matches the unit name against the tail of its unit ids: the empty string and short strings match something
+    if u.isStr then
+      Res.alt (raise .babel_UnknownUnitError)
+        (match l with
+         | int_huge | int_giant | str_hugeint | str_exp => raise .decimal_InvalidOperation
+         | int_big => [.ok (), .error .decimal_InvalidOperation]
+         | float_inf | float_ninf | str_inf => raise .OverflowError
+         | float_nan | str_nan => raise .ValueError
+         | _ => pure ())
     else Res.alt (raise .babel_UnknownUnitError) (raise .TypeError) }
 
 /-- the steps of every registered filter (one small definition per filter, so that evaluation stays cheap) -/
